@@ -341,6 +341,20 @@ class Model:
             # subqueries inside grouped context: evaluate against the group's first row
             env = grp["rows"][0] if grp["rows"] else env
         cols, rows = self.query(q, env)
+        refs = outer_refs(q)
+        if refs:
+            null_corr = False
+            for al, nm in refs:
+                try:
+                    if env.lookup(al, nm) is None:
+                        null_corr = True
+                except (KeyError, Unspecified):
+                    pass
+            if null_corr:
+                # the subquery is correlated on a value that is NULL for this outer row
+                self.triggers.add("null_correlation")
+                if "null_correlation_empty_set" in self.switches:
+                    rows = []
         if kind == "scalar":
             if len(rows) > 1:
                 self.triggers.add("scalar_subquery_multi_row")
@@ -425,8 +439,8 @@ class Model:
                     null_corr = any(al in lb and nm in lb[al] and lb[al][nm] is None for al, nm in refs)
                     if null_corr:
                         # correlation value is NULL for this outer row
-                        self.triggers.add("lateral_null_corr")
-                        if "lateral_null_outer_dropped" in self.switches:
+                        self.triggers.add("null_correlation")
+                        if "null_correlation_empty_set" in self.switches:
                             continue
                     cols, rows = self.query(f.right.q, Env(lb, env))
                     for r in rows:
